@@ -63,8 +63,11 @@ def scenario(spec, recorder):
     rng = rng_from(spec["key"])
     recorder.install()
     try:
-        ph = Phonopy(cell, supercell_matrix=np.diag(spec["n"]), primitive_matrix=None if spec["pmat"] == "none" else "auto",
-                     store_dense_svecs=spec["dense_svecs"], log_level=0)
+        try:
+            ph = Phonopy(cell, supercell_matrix=np.diag(spec["n"]), primitive_matrix=None if spec["pmat"] == "none" else "auto",
+                         store_dense_svecs=spec["dense_svecs"], log_level=0)
+        except RuntimeError:
+            return None  # constructor rejects the cell / primitive-matrix combination (C04's subject)
         n = len(ph.supercell)
         fc, _ = dense_fc(ph.supercell, rng)
         ph.generate_displacements()
